@@ -81,6 +81,7 @@ REQUIRED = [
     'wipv4_HEADER_LEN', 'phy_IPV4_FRAGMENT_PAYLOAD_ALIGNMENT',
     'cfg_FRAGMENTATION_BUFFER_SIZE', 'cfg_REASSEMBLY_BUFFER_COUNT',
     'wipv6_HEADER_LEN', 'wicmpv4_HEADER_END',
+    'wtcp_HEADER_LEN', 'dns_MDNS_DNS_PORT',
 ]
 
 INT = r'(?:0x[0-9a-fA-F_]+|0b[01_]+|[0-9][0-9_]*)'
